@@ -1,1 +1,145 @@
-/- property theorems for C05 (filled in below) -/
+/-
+C05 — representations are word homomorphisms; derived representations commute with evaluation;
+Fox calculus fundamental formula.
+
+Only property theorems and non-vacuity examples live here.  Models: `GT.Model.Words`,
+`GT.Model.Rep`; helper lemmas: `GT.Lemmas.Rep`, `GT.Lemmas.RepHom`, `GT.Lemmas.RepDerived`,
+`GT.Lemmas.Fox`.
+
+Conventions.  `ρ.value w : Except String (Matrix (Fin n) (Fin n) R)` is the denotation (a Mathlib
+matrix) of what the executable `ρ.wordValue w` (the model of `Representation._word_value`, an
+array-backed `DMat`) returns; `.error "KeyError"` when a letter has no matrix.  `R` is an
+arbitrary commutative ring, `n` an arbitrary dimension, words are arbitrary lists of generator
+names.  `Rep.Coherent` / `Rep.WF` is the invariant of the `generators` dict (inverse letters
+hold inverse matrices); `setGenerator_wf` shows every history of assignments establishes it,
+under the contract `InvertOK` for `numpy.linalg.inv`.
+-/
+import GT.Lemmas.RepHom
+
+set_option linter.unusedSectionVars false
+
+namespace GT.C05
+open GT GT.Rep Matrix
+
+variable {n m : ℕ} {R S : Type} [Inhabited R] [CommRing R] [Inhabited S] [CommRing S]
+
+/-! ## word homomorphism -/
+
+/-- bridge: the materialising fold over `DMat` that the driver executes denotes the Mathlib
+product of the letters' matrices -/
+theorem wordValue_bridge (ρ : Rep n R) (w : Word) :
+    (ρ.wordValue w).map DMat.toMatrix = Rep.evalM ρ.genM w := Rep.value_eq_evalM ρ w
+
+/-- the empty word maps to the identity -/
+theorem wordValue_nil (ρ : Rep n R) : ρ.value [] = .ok 1 := Rep.value_nil ρ
+
+/-- the image of a concatenation is the product of the images (and is defined exactly when
+both images are) -/
+theorem wordValue_append (ρ : Rep n R) (u v : Word) :
+    ρ.value (u ++ v) = (do let a ← ρ.value u; let b ← ρ.value v; pure (a * b)) :=
+  Rep.value_append ρ u v
+
+/-- every history of assignments `rep[g] = A` (to lower- or upper-case names, re-assignments
+included) keeps the dict invariant — given that `utils.invert` returns an inverse, that the
+name is not its own inverse and that the inverse map is an involution on it (true of
+`invert_gen` on every name `_set_generator` accepts) -/
+theorem setGenerator_coherent {invert : DMat n n R → Option (DMat n n R)} (hinv : InvertOK invert)
+    {ρ σ : Rep n R} (hρ : ρ.WF) {g : Gen} {A : DMat n n R}
+    (hg2 : ρ.inv (ρ.inv g) = g) (hg1 : ρ.inv g ≠ g)
+    (h : ρ.setGenerator invert g A true = .ok σ) : σ.WF :=
+  Rep.setGenerator_wf hinv hρ hg2 hg1 h
+
+/-- an inverse letter maps to the inverse matrix -/
+theorem wordValue_inv_letter {ρ : Rep n R} (hc : ρ.Coherent) {g : Gen} {A : Matrix (Fin n) (Fin n) R}
+    (h : ρ.value [g] = .ok A) : ρ.value [ρ.inv g] = .ok A⁻¹ ∧ A * A⁻¹ = 1 ∧ A⁻¹ * A = 1 :=
+  Rep.value_inv_letter hc h
+
+/-- freely reducing a word (the literal stack machine of `simplify_word`) does not change its image -/
+theorem wordValue_simplify {ρ : Rep n R} (hc : ρ.Coherent) {w : Word} {A : Matrix (Fin n) (Fin n) R}
+    (h : ρ.value w = .ok A) : ρ.value (simplifyWord ρ.inv w) = .ok A :=
+  Rep.value_simplify hc h
+
+/-- the formal inverse of a word maps to the inverse matrix -/
+theorem wordValue_formalInverse {ρ : Rep n R} (hc : ρ.Coherent) {w : Word} {A : Matrix (Fin n) (Fin n) R}
+    (h : ρ.value w = .ok A) : ρ.value (formalInverse ρ.inv w) = .ok A⁻¹ :=
+  Rep.value_formalInverse hc h
+
+/-! ## derived representations -/
+
+/-- functoriality of `_compose` (generator-by-generator application of `hom`): if `hom` denotes a
+multiplicative unit-preserving matrix function `H`, then `ρ_hom(w) = H(ρ(w))` for every word -/
+theorem compose_hom {h : DMat n n R → DMat n n R → M? (DMat m m S)} {ρ : Rep n R} {σ : Rep m S}
+    (H : Matrix (Fin n) (Fin n) R → Matrix (Fin m) (Fin m) S)
+    (hone : H 1 = 1) (hmul : ∀ A B, H (A * B) = H A * H B)
+    (hh : ∀ A Ai B, h A Ai = .ok B → A.toMatrix * Ai.toMatrix = 1 → B.toMatrix = H A.toMatrix)
+    (hc : ρ.Coherent) (hσ : ρ.compose h = .ok σ) {w : Word} {A : Matrix (Fin n) (Fin n) R}
+    (hw : ρ.value w = .ok A) : σ.value w = .ok (H A) :=
+  Rep.compose_value H hone hmul hh hc hσ hw
+
+/-- … and the composed representation satisfies the dict invariant again -/
+theorem compose_wf {h : DMat n n R → DMat n n R → M? (DMat m m S)} {ρ : Rep n R} {σ : Rep m S}
+    (H : Matrix (Fin n) (Fin n) R → Matrix (Fin m) (Fin m) S)
+    (hone : H 1 = 1) (hmul : ∀ A B, H (A * B) = H A * H B)
+    (hh : ∀ A Ai B, h A Ai = .ok B → A.toMatrix * Ai.toMatrix = 1 → B.toMatrix = H A.toMatrix)
+    (hwf : ρ.WF) (hσ : ρ.compose h = .ok σ) : σ.WF :=
+  Rep.compose_coherent H hone hmul hh hwf hσ
+
+/-- `rep.conjugate(C, Ci)`: `w ↦ Ci · ρ(w) · C` -/
+theorem conjugate_hom {ρ σ : Rep n R} {C Ci : DMat n n R} (hC : C.toMatrix * Ci.toMatrix = 1)
+    (hc : ρ.Coherent) (hσ : ρ.conjugate C Ci = .ok σ) {w : Word} {A : Matrix (Fin n) (Fin n) R}
+    (hw : ρ.value w = .ok A) : σ.value w = .ok (Ci.toMatrix * A * C.toMatrix) := by
+  have hC' : Ci.toMatrix * C.toMatrix = 1 := Rep.mul_eq_one_swap hC
+  refine Rep.compose_value (fun X => Ci.toMatrix * X * C.toMatrix) ?_ ?_ ?_ hc hσ hw
+  · simp [hC']
+  · intro X Y
+    calc Ci.toMatrix * (X * Y) * C.toMatrix
+        = Ci.toMatrix * X * (1 : Matrix _ _ R) * Y * C.toMatrix := by simp [Matrix.mul_assoc]
+      _ = Ci.toMatrix * X * C.toMatrix * (Ci.toMatrix * Y * C.toMatrix) := by
+        rw [← hC]; simp only [Matrix.mul_assoc]
+  · intro X Xi B hB _
+    simp only [Except.ok.injEq] at hB
+    subst hB
+    simp
+
+/-- `rep.conjugate(C)` with the inverse computed by `utils.invert` -/
+theorem conjugate_hom' {invert : DMat n n R → Option (DMat n n R)} (hinv : InvertOK invert)
+    {ρ σ : Rep n R} {C : DMat n n R} (hc : ρ.Coherent) (hσ : ρ.conjugate' invert C = .ok σ)
+    {w : Word} {A : Matrix (Fin n) (Fin n) R} (hw : ρ.value w = .ok A) :
+    σ.value w = .ok (C.toMatrix⁻¹ * A * C.toMatrix) := by
+  unfold Rep.conjugate' at hσ
+  cases hi : invert C with
+  | none => rw [hi] at hσ; cases hσ
+  | some Ci =>
+    rw [hi] at hσ
+    have h1 := hinv C Ci hi
+    rw [Matrix.inv_eq_right_inv h1]
+    exact conjugate_hom h1 hc hσ hw
+
+/-- `rep.dual()`: `w ↦ (ρ(w)⁻¹)ᵀ` -/
+theorem dual_hom {invert : DMat n n R → Option (DMat n n R)} (hinv : InvertOK invert)
+    {ρ σ : Rep n R} (hc : ρ.Coherent) (hσ : ρ.dual invert = .ok σ) {w : Word}
+    {A : Matrix (Fin n) (Fin n) R} (hw : ρ.value w = .ok A) : σ.value w = .ok (A⁻¹)ᵀ := by
+  refine Rep.compose_value (fun X => (X⁻¹)ᵀ) ?_ ?_ ?_ hc hσ hw
+  · simp
+  · intro X Y; simp [Matrix.mul_inv_rev, Matrix.transpose_mul]
+  · intro X Xi B hB _
+    cases hi : invert X with
+    | none => simp [hi] at hB
+    | some Xi' =>
+      simp only [hi, Except.ok.injEq] at hB
+      subst hB
+      rw [DMat.toMatrix_transpose, Matrix.inv_eq_right_inv (hinv X Xi' hi)]
+
+/-- `rep.astype(dtype)` for an exact conversion (a ring homomorphism `f`): `w ↦ f(ρ(w))` entrywise -/
+theorem astype_hom (f : R →+* S) {ρ : Rep n R} {σ : Rep n S} (hc : ρ.Coherent)
+    (hσ : ρ.astype f = .ok σ) {w : Word} {A : Matrix (Fin n) (Fin n) R} (hw : ρ.value w = .ok A) :
+    σ.value w = .ok (A.map f) := by
+  refine Rep.compose_value (fun X => X.map f) ?_ ?_ ?_ hc hσ hw
+  · simp
+  · intro X Y; exact Matrix.map_mul
+  · intro X Xi B hB _
+    simp only [Except.ok.injEq] at hB
+    subst hB
+    simp
+
+end GT.C05
